@@ -8,6 +8,7 @@ package confmap
 // small map alphabet against a reference recursive right-biased merge; typed whole-value and string-target checks.
 
 import (
+	"runtime"
 	"os"
 	"context"
 	"encoding/json"
@@ -37,6 +38,8 @@ var c12Table = map[string]string{
 	"K": "v", "N": "42", "B": "true", "F": "1.5", "R": "${aa:K}", "E": "a$$b", "C": "${aa:C}", "C2": "x${aa:C3}", "C3": "${aa:C2}y", "P": "K", "D": "$",
 	"M": "{m: 1, n: [1, two]}", "L": "[1, two]", "Z": "null", "Z2": "~", "RN": "${aa:N}", "NW": " 42\n", "MR": "{m: \"${aa:N}\", l: [\"${aa:K}\"]}",
 	// structured values with three and four references in separate leaves (the original text is one string holding them all)
+	// reference cycles beyond the plain self-reference: one that mentions itself twice, and one of two keys that do
+	"CD": "${aa:CD}${aa:CD}", "CE": "${aa:CF}-${aa:CF}", "CF": "${aa:CE}",
 	"MR3": "{a: \"${aa:K}\", b: \"${aa:N}\", c: \"${aa:B}\"}", "LR4": "[\"${aa:K}\", \"${aa:N}\", \"${aa:K}\", \"${aa:B}\"]",
 }
 
@@ -175,6 +178,15 @@ func c12Resolver(sources []map[string]any, defScheme bool) (*Resolver, error) {
 				var i int
 				fmt.Sscanf(key, "SI%d", &i)
 				return NewRetrieved(c12Shared[i])
+			}
+			if key == "CD" || key == "CE" || key == "CF" {
+				// a resolution that grows without bound is reported as non-termination before it takes the machine down: the
+				// heap in use is looked at every time one of the growing cycles is retrieved again
+				var ms runtime.MemStats
+				runtime.ReadMemStats(&ms)
+				if ms.HeapAlloc > 96<<20 {
+					panic(vs.NonTermination{Ticks: int(ms.HeapAlloc >> 20)})
+				}
 			}
 			v, ok := c12Table[key]
 			if !ok && strings.Contains(key, "$") {
@@ -695,6 +707,21 @@ func TestVerif(t *testing.T) {
 		switch c.Kind {
 		case "expand":
 			return c12Expand(c.S, c.Def)
+		case "cycle":
+			// "Resolution always terminates, reporting an error for reference cycles"
+			for _, str := range []string{"${aa:" + c.Key + "}", "x${aa:" + c.Key + "}"} {
+				_, _, _, gerr := c12Resolve(str, c.Def)
+				runtime.GC()
+				switch {
+				case gerr == nil:
+					return "cycle-not-reported", fmt.Sprintf("%q (default_scheme=%v): the reference is part of a cycle, resolution reported no error", str, c.Def)
+				case strings.HasPrefix(gerr.Error(), "NON-TERMINATION"):
+					return "cycle-resolution-grows-without-bound", fmt.Sprintf("%q (default_scheme=%v, provider value %q): resolution did not end - the text grows with every pass until memory runs out (stopped by the harness when the heap in use passed 96 MiB): %v", str, c.Def, c12Table[c.Key], gerr)
+				case strings.HasPrefix(gerr.Error(), "PANIC"):
+					return "cycle-panic", fmt.Sprintf("%q: %v", str, gerr)
+				}
+			}
+			return "", ""
 		case "history":
 			var h []int
 			for _, ch := range c.Key {
@@ -730,6 +757,9 @@ func TestVerif(t *testing.T) {
 	vs.TickLimit = 100000
 	var n int64
 	do := func(c c12Case, nontrivial bool) {
+		if only := os.Getenv("VERIF_C12_ONLY"); only != "" && only != c.Kind { // debugging aid
+			return
+		}
 		n++
 		if !ctx.Mine(n) {
 			return
@@ -798,6 +828,11 @@ func TestVerif(t *testing.T) {
 	for _, def := range []bool{false, true} {
 		for _, k := range keys {
 			do(c12Case{Kind: "typed", Key: k, Def: def}, true)
+		}
+	}
+	for _, def := range []bool{false, true} {
+		for _, k := range []string{"C", "C2", "C3", "CD", "CE"} {
+			do(c12Case{Kind: "cycle", Key: k, Def: def}, true)
 		}
 	}
 	// every history of <= 3 table versions
